@@ -280,8 +280,22 @@ func (fx *FnCtx) calleeEnv(fn *ssa.Function, args, bindings []Val) map[string]SV
 
 func (fx *FnCtx) bindResults(env map[string]SVal, fn *ssa.Function, res []Val) {
 	rs := fn.Signature.Results()
+	shadowed := false
+	for _, fv := range fn.FreeVars {
+		if fv.Name() == "result" {
+			shadowed = true
+		}
+	}
+	for _, p := range fn.Params {
+		if p.Name() == "result" {
+			shadowed = true
+		}
+	}
 	if rs.Len() == 1 {
-		env["result"] = SVal{v: res[0], typ: rs.At(0).Type()}
+		env["ret"] = SVal{v: res[0], typ: rs.At(0).Type()}
+		if !shadowed {
+			env["result"] = SVal{v: res[0], typ: rs.At(0).Type()}
+		}
 	}
 	for i := 0; i < rs.Len(); i++ {
 		env[fmt.Sprintf("result.%d", i)] = SVal{v: res[i], typ: rs.At(i).Type()}
@@ -328,7 +342,7 @@ func (fr *Frame) invoke(ins ssa.Instruction, c *ssa.CallCommon, st *State) []Val
 		cond := fmt.Sprintf("(= (itag %s) %d)", recv.t, tag)
 		tagConds = append(tagConds, cond)
 		bs := st.clone()
-		bs.guard = fx.s.define("g", "Bool", and(st.guard, cond))
+		bs.guard = fx.s.define("dg", "Bool", and(st.guard, cond))
 		rv := Val{t: fx.s.define("recv", fx.tm.sortOf(rt), fx.unbox(recv.t, rt))}
 		fx.assumeOld(bs, rt, rv.t)
 		cargs := append([]Val{rv}, args...)
